@@ -247,6 +247,10 @@ type exec struct {
 func (x *exec) count(k string, n int64) { x.stats[k] += n }
 
 func (x *exec) flush() {
+	x.stats["gc_deletes_of_deleted_packages_objects"] += int64(x.mon.gcLegit)
+	x.stats["creates_by_active_establish"] += int64(x.mon.creates)
+	x.stats["controller_reference_moves"] += int64(x.mon.ctlMoves)
+	x.mon.gcLegit, x.mon.creates, x.mon.ctlMoves = 0, 0, 0
 	ks := make([]string, 0, len(x.stats))
 	for k := range x.stats {
 		ks = append(ks, k)
